@@ -118,8 +118,12 @@ EXPORT errno_t _ctime_s_chk(char *dest, rsize_t dmax, const time_t *timer,
 
     CHK_DEST_NULL("ctime_s")
     if (unlikely(dmax < 26)) {
-        invoke_safe_str_constraint_handler("ctime_s: dmax is too small", dest,
-                                           ESLEMIN);
+        if (dmax) {
+            handle_error(dest, dmax, "ctime_s: dmax is too small", ESLEMIN);
+        } else {
+            invoke_safe_str_constraint_handler("ctime_s: dmax is too small",
+                                               NULL, ESLEMIN);
+        }
         return ESLEMIN;
     }
     if (destbos == BOS_UNKNOWN) {
@@ -135,19 +139,16 @@ EXPORT errno_t _ctime_s_chk(char *dest, rsize_t dmax, const time_t *timer,
     }
 
     if (unlikely(timer == NULL)) {
-        invoke_safe_str_constraint_handler("ctime_s: timer is null", NULL,
-                                           ESNULLP);
+        handle_error(dest, dmax, "ctime_s: timer is null", ESNULLP);
         return ESNULLP;
     }
     if (unlikely(*timer < 0)) {
-        invoke_safe_str_constraint_handler("ctime_s: timer is <0", NULL,
-                                           ESLEMIN);
+        handle_error(dest, dmax, "ctime_s: timer is <0", ESLEMIN);
         return ESLEMIN;
     }
     /* 32bit have a lower limit: -Werror=type-limits (long) */
     if (unlikely(*timer >= MAX_TIME_T_STR)) { /* year 10000 */
-        invoke_safe_str_constraint_handler("ctime_s: timer is too large", NULL,
-                                           ESLEMAX);
+        handle_error(dest, dmax, "ctime_s: timer is too large", ESLEMAX);
         return ESLEMAX;
     }
 
